@@ -1,17 +1,23 @@
 (** C04 - strict mode rejects exactly the inputs containing an out-of-range value.
-    PROVED: the field-level statement - a strict primitive decode raises the value error exactly for an
-    out-of-range value, after reading exactly the field's bytes, naming path, declared type and integer, without
-    emitting the offending event; validity is membership in the declared set (C16_valid_iff_declared).
-    NOT YET PROVED: the composition ("the FIRST such field in wire order, events of all earlier fields emitted");
+    PROVED: (field level) a strict primitive decode raises the value error exactly for an out-of-range value,
+    after reading exactly the field's bytes, naming path, declared type and integer, without emitting the offending
+    event; validity is membership in the declared set (C16_valid_iff_declared).
+    (composition, every structure type, all tables, all inputs) whenever the input is structurally consistent for
+    type [t]: strict decoding raises if and only if some leaf of the field-by-field reading is out of range; the
+    error names the FIRST such leaf in wire order (path, declared type, integer); exactly the events of all earlier
+    fields - none for the offending one - have been emitted; exactly the bytes after that field remain.
+    (Proofs/Sim6.v: warn-mode simulation + strict/warn agreement + "strict mode never warns".)
+    NOT YET PROVED: the composition for the Command / Response / stream roots (reserved command codes included);
     decided by the oracle (implementation vs extracted [spec_value_error] at the pinned tables on every
     constrained leaf of generated messages) and the model correspondence.
     Statement file: theorem statements, [exact], Print Assumptions only. *)
 From Coq Require Import ZArith List String Bool.
-From TV Require Import Layout.Types Base.Bytes Model.Monad Model.Ints Model.Decoder Proofs.OpLemmas.
+From TV Require Import Layout.Types gen.Tables gen.Pinned Base.Bytes Model.Monad Model.Ints Model.Decoder Model.Message Model.Pump
+  Model.Show Spec.Value Spec.Message Proofs.OpLemmas Proofs.Agree Proofs.Sim6 Properties.C20.
 Import ListNotations.
 Open Scope Z_scope.
 
-Theorem C04_field_level_partial :
+Theorem C04_field_level :
   forall p pa s tr s' o, dec_prim true p pa s = (tr, s', o) ->
     match o with
     | Ok r => exists bs, tr = map Rd bs ++ [Ev (mkEvent pa (TyN (pname p)) (Some (from_bytes (psigned p) bs)))] /\
@@ -26,4 +32,41 @@ Theorem C04_field_level_partial :
     | Internal _ | Fuel => False
     end.
 Proof. exact dec_prim_strict. Qed.
-Print Assumptions C04_field_level_partial.
+Print Assumptions C04_field_level.
+
+(** every structure type: a structurally consistent input with an out-of-range leaf decodes, in strict mode, to
+    exactly the events before the first such leaf, then the value error naming it, the bytes after it remaining *)
+Theorem C04_structure_types :
+  forall T t bs evs o, spec_value_error T (RType t) bs = Some (evs, o) -> decode T true (RType t) bs = (evs, o).
+Proof. exact types_first_bad. Qed.
+Print Assumptions C04_structure_types.
+
+Theorem C04_structure_types_pinned :
+  forall t bs evs o, spec_value_error Pinned.T (RType t) bs = Some (evs, o) -> decode Tables.T true (RType t) bs = (evs, o).
+Proof. rewrite C20_pinned. exact (types_first_bad Pinned.T). Qed.
+Print Assumptions C04_structure_types_pinned.
+
+(** "if and only if": for a structurally consistent input, strict decoding raises exactly when some leaf is out of
+    range (and then, by the theorem above, the error is the value error of the first one) *)
+Theorem C04_raises_iff_some_leaf_out_of_range :
+  forall T t bs v, sp_ty T t root_path None false bs = Some (v, []) ->
+    ((exists evs e rem, decode T true (RType t) bs = (evs, ORaised e rem)) <-> all_valid v = false).
+Proof. exact types_raise_iff_bad_leaf. Qed.
+Print Assumptions C04_raises_iff_some_leaf_out_of_range.
+
+(** strict mode never emits a warning (every root, every state) *)
+Theorem C04_strict_never_warns :
+  forall T r s tr s' o, dec_root T true r s = (tr, s', o) -> existsb Agree.is_warning tr = false.
+Proof. exact strict_is_quiet. Qed.
+Print Assumptions C04_strict_never_warns.
+
+(** the full statement (kept visible): the same for every root *)
+Definition C04_full_statement : Prop :=
+  forall r bs evs o, spec_value_error Pinned.T r bs = Some (evs, o) -> decode Tables.T true r bs = (evs, o).
+
+(** non-vacuity: a creation ticket whose tag is fine and whose hierarchy handle is out of range - the events of the
+    structure and of the tag, then the error at the hierarchy, 2 bytes remaining *)
+Example C04_example_ticket :
+  exists t evs e, find_type Pinned.T "S" "TPMT_TK_CREATION" = Some t /\
+    spec_value_error Pinned.T (RType t) [128; 33; 0; 0; 0; 0; 0; 0] = Some (evs, ORaised e [0; 0]) /\ List.length evs = 2%nat.
+Proof. eexists _, _, _. split; [vm_compute; reflexivity|]. split; vm_compute; reflexivity. Qed.
